@@ -6,10 +6,14 @@ package p2p
 
 import (
 	"crypto/cipher"
+	"crypto/ecdsa"
 	"io"
 	"io/ioutil"
+	"net"
+	"strings"
 
 	"gitlab.com/aquachain/aquachain/crypto/sha3"
+	"gitlab.com/aquachain/aquachain/p2p/discover"
 )
 
 // VerifMaxUint24 is the frame size limit of rlpx.go.
@@ -121,3 +125,63 @@ func (r *verifBytesReader) Read(p []byte) (int, error) {
 }
 
 func verifReader(b []byte) io.Reader { return &verifBytesReader{b: b} }
+
+// ---- handshake (C17 follow-up): constants and the real handshake entry points
+
+const (
+	VerifAuthMsgLen       = authMsgLen
+	VerifAuthRespLen      = authRespLen
+	VerifEciesOverhead    = eciesOverhead
+	VerifEncAuthMsgLen    = encAuthMsgLen
+	VerifEncAuthRespLen   = encAuthRespLen
+	VerifHandshakeTimeout = handshakeTimeout
+	VerifFrameReadTimeout = frameReadTimeout
+)
+
+// VerifZeroHeader is the header-data constant of rlpx.go.
+func VerifZeroHeader() []byte { return append([]byte(nil), zeroHeader...) }
+
+// VerifReceiverEncHandshake is receiverEncHandshake (listening side).
+func VerifReceiverEncHandshake(conn io.ReadWriter, prv *ecdsa.PrivateKey) (discover.NodeID, error) {
+	s, err := receiverEncHandshake(conn, prv)
+	return s.RemoteID, err
+}
+
+// VerifInitiatorEncHandshake is initiatorEncHandshake (dialing side).
+func VerifInitiatorEncHandshake(conn io.ReadWriter, prv *ecdsa.PrivateKey, remote discover.NodeID) (discover.NodeID, error) {
+	s, err := initiatorEncHandshake(conn, prv, remote)
+	return s.RemoteID, err
+}
+
+// VerifDoEncHandshake is newRLPX(fd).doEncHandshake: the transport sets the
+// handshake deadline on fd exactly as the server does.
+func VerifDoEncHandshake(fd net.Conn, prv *ecdsa.PrivateKey, dial *discover.Node) (discover.NodeID, error) {
+	return newRLPX(fd).(*rlpx).doEncHandshake(prv, dial)
+}
+
+// VerifReadHandshakeMsg is readHandshakeMsg for an auth (initiator -> receiver)
+// or ack packet; class: ok | short | underflow | err; n = bytes of buf returned.
+func VerifReadHandshakeMsg(ack bool, prv *ecdsa.PrivateKey, r io.Reader) (class string, n int, gotPlain bool) {
+	var (
+		buf []byte
+		err error
+	)
+	if ack {
+		buf, err = readHandshakeMsg(new(authRespV4), encAuthRespLen, prv, r)
+	} else {
+		m := new(authMsgV4)
+		buf, err = readHandshakeMsg(m, encAuthMsgLen, prv, r)
+		gotPlain = m.gotPlain
+	}
+	switch {
+	case err == nil:
+		class = "ok"
+	case err == io.EOF || err == io.ErrUnexpectedEOF:
+		class = "short"
+	case strings.HasPrefix(err.Error(), "size underflow"):
+		class = "underflow"
+	default:
+		class = "err"
+	}
+	return class, len(buf), gotPlain
+}
